@@ -102,6 +102,15 @@ func buildFlagCases(t *testing.T) (cases []nodeCase, nflags, nsecret int) {
 			for _, src := range []string{"env", "file", "cli-eq"} {
 				cases = append(cases, nodeCase{Kind: "moved", Cfg: baseline(strict), Flag: k, Source: src, MustFail: true, Spec: flagSpec(t, strict, k, cert, src)})
 			}
+			// the legacy name present but blank, next to the new name holding the real value (conflicting values under the two names):
+			// the statement does not say whether a blank legacy key counts as "set" — reported, never judged
+			for _, v := range []string{"", " "} {
+				for _, src := range []string{"env", "file"} {
+					cases = append(cases, nodeCase{Kind: "moved-blank", Cfg: baseline(strict), Flag: k, Source: fmt.Sprintf("%s %q", src, v), Spec: flagSpec(t, strict, k, v, src)})
+				}
+			}
+			// the legacy name with another value than the new name (the new one configured, the legacy one pointing elsewhere)
+			cases = append(cases, nodeCase{Kind: "moved", Cfg: baseline(strict), Flag: k, Source: "env-conflicting-value", MustFail: true, Spec: flagSpec(t, strict, k, "{DIR}/other-certificate.pem", "env")})
 			// the moved key next to an otherwise insecure-but-tolerated configuration (TLS not configured at all)
 			c := baseline(strict)
 			c.TLS = "disabled"
@@ -143,6 +152,8 @@ func runFlagCase(t *testing.T, r *ev.Run, nc nodeCase) {
 		} else if nc.Source != "cli-eq" && !strings.Contains(res.Refusal, "moved") {
 			r.Observation("moved key refused with another message", map[string]any{"key": nc.Flag, "source": nc.Source, "refusal": res.Refusal})
 		}
+	case "moved-blank":
+		r.Observation(fmt.Sprintf("moved configuration key %s present with a blank value (%s, strict=%v): %s", nc.Flag, nc.Source, nc.Cfg.Strict, verdict), res.Refusal)
 	case "redacted":
 		r.Observation(fmt.Sprintf("option %s is masked when the configuration is printed but does not end in token/password; on the command line (strict=%v): %s", nc.Flag, nc.Cfg.Strict, verdict), res.Refusal)
 	}
